@@ -88,7 +88,18 @@ func genPattern(t *rapid.T) []*Stmt {
 	if second.K == "selfdestruct" && second.Cond < 0 {
 		second.Cond = unif(t, 4, "patSdCond")
 	}
-	switch unif(t, 6, "patKind") {
+	switch unif(t, 7, "patKind") {
+	case 6: // re-entrant: mode c calls itself in mode c+1, which calls itself in mode c+2 - that frame self-destructs -
+		// and then mode c+1 fails: the self-destruct (of a contract the outer frames have long touched) is rolled back
+		c := unif(t, 2, "reC")
+		self := &Expr{K: "address"}
+		heir := pick(t, []*Expr{{K: "origin"}, {K: "arg", I: 2}, {K: "arg", I: 3}}, "reHeir")
+		return []*Stmt{
+			{K: "call", Cond: c, Target: self, Value: genValueExpr(t), OnFail: pick(t, []string{"ignore", "store"}, "reOnfail"), I: 4 + unif(t, 4, "reSlot"), Bump: true},
+			{K: "call", Cond: c + 1, Target: self, Value: &Expr{K: "const", V: 0}, OnFail: "ignore", Bump: true},
+			{K: "selfdestruct", Cond: c + 2, Target: heir},
+			{K: pick(t, []string{"revert", "invalid", "stop"}, "reEnd"), Cond: c + 1},
+		}
 	case 5: // what the contract is told about the block it runs in: recorded, logged and returned
 		ctx := func(label string) *Expr {
 			e := &Expr{K: pick(t, []string{"blockhash", "blockhash", "blockhash", "number", "timestamp", "coinbase", "gaslimit", "difficulty", "basefee", "chainid"}, label)}
